@@ -1292,7 +1292,12 @@ func checkC13(c *ctx) {
 			csS = "-"
 		}
 		r.eval(fmt.Sprintf("cr|%s|%s|%v|%d", f.modelBlocks(), csS, pattern, rd), spans)
-		if out != nil && nreads > 0 {
+		if f.has64k() {
+			// a member of 65536 payload bytes is outside the Lean model's domain (WF: payload < 65536): the repaired
+			// txOffset reports the position behind its last byte as (NextBase, 0), the model still wraps to (base, 0)
+			// and sees io.EOF one call later; these runs are judged by the oracle (exact bytes) alone
+			r.hist("chunkreader.model-comparison.skipped.payload65536")
+		} else if out != nil && nreads > 0 {
 			sizes := make([]string, nreads)
 			for i := range sizes {
 				sizes[i] = fmt.Sprint(pattern[i%len(pattern)])
